@@ -129,12 +129,40 @@ class IterSeq:
         self.n, self.at, self.static, self.desc = n, at, static, desc
 
 
+class _AliasEnv(dict):
+    """environment handed to a sidecar invariant: a name the invariant refers to but the current source no longer has (a
+    harmless rename of a local) is looked up through `alias` (see Exec.loop_aliases)"""
+
+    def __init__(self, env, alias, used):
+        dict.__init__(self, env)
+        self._alias, self._used = alias, used
+
+    def __getitem__(self, k):
+        self._used.add(k)
+        if not dict.__contains__(self, k) and k in self._alias:
+            k = self._alias[k]
+        return dict.__getitem__(self, k)
+
+    def __contains__(self, k):
+        return dict.__contains__(self, k) or (k in self._alias and dict.__contains__(self, self._alias[k]))
+
+    def get(self, k, d=None):
+        try:
+            return self[k]
+        except KeyError:
+            return d
+
+
 class LoopCtx:
     """what a sidecar loop invariant may refer to"""
 
     def __init__(self, ex, i, seq, v, S, out, pre_v, S_pre, out_pre, fn, extra=None):
-        self.ex, self.i, self.seq, self.v, self.S, self.out = ex, i, seq, v, S, out
-        self.pre_v, self.S_pre, self.out_pre, self.fn = pre_v, S_pre, out_pre, fn
+        alias = getattr(ex, "_alias", {})
+        used = getattr(ex, "_used", set())
+        self.ex, self.i, self.seq, self.S, self.out = ex, i, seq, S, out
+        self.v = _AliasEnv(v, alias, used)
+        self.pre_v = _AliasEnv(pre_v, alias, used)
+        self.S_pre, self.out_pre, self.fn = S_pre, out_pre, fn
         self.extra = extra or {}
 
     def t(self, name):
@@ -455,6 +483,37 @@ class Exec:
         return qs
 
     # ------------------------------------------------------------------ loops
+    def loop_aliases(self, spec, mk_ctx, p, loop_names):
+        """Invariants refer to program variables by name.  If a name is missing in the current source (a harmless rename of a
+        local), map it to the one loop variable the invariant does not mention; ambiguous or impossible -> the KeyError surfaces
+        as a STRUCT failure.  Sound: any invariant that verifies is an invariant."""
+        self._alias = dict(getattr(self, "_alias", {}))
+        for _ in range(3):
+            self._used = set()
+            try:
+                probe = p.fork()
+                for n in loop_names:
+                    if n not in probe.env:
+                        probe.env[n] = V("ref", fresh_const("probe_" + n, R))
+                spec.inv(mk_ctx(probe))
+                if spec.hints:
+                    spec.hints(mk_ctx(probe))
+                return
+            except KeyError as e:
+                missing = e.args[0]
+                if not isinstance(missing, str) or missing in self._alias:
+                    return
+                cands = [n for n in loop_names if n not in self._used and n not in self._alias.values()]
+                if len(cands) != 1:
+                    params = set(self.fi.params()) | {(self.fi.node.args.vararg.arg if self.fi.node.args.vararg else None)}
+                    cands = [n for n in p.env if n not in self._used and n not in self._alias.values() and n not in params]
+                if len(cands) != 1:
+                    return
+                self._alias[missing] = cands[0]
+                self.notes.append("invariant variable %r bound to renamed local %r" % (missing, cands[0]))
+            except Exception:
+                return
+
     def loop_spec(self, st):
         o = self.ordinal(st, "loop")
         spec = self.loops.get(o)
@@ -537,6 +596,7 @@ class Exec:
         def ctx(path, i):
             return LoopCtx(self, i, seq, path.env, path.S, path.out, pre_v, S_pre, out_pre, self.fnctx, path.extra)
 
+        self.loop_aliases(spec, lambda path: ctx(path, IntVal(0)), p, [n for n in names if n not in tnames] or names)
         # INV0
         p0 = p.fork(label="loop%d:init" % o)
         p0.assume(*spec.hint(ctx(p0, IntVal(0))))
@@ -627,6 +687,7 @@ class Exec:
         def ctx(path, i):
             return LoopCtx(self, i, None, path.env, path.S, path.out, pre_v, S_pre, out_pre, self.fnctx, path.extra)
 
+        self.loop_aliases(spec, lambda path: ctx(path, IntVal(0)), p, names)
         p0 = p.fork(label="loop%d:init" % o)
         p0.assume(*spec.hint(ctx(p0, IntVal(0))))
         for name, f in spec.inv(ctx(p0, IntVal(0))):
